@@ -73,6 +73,7 @@ def _op():
         # ---- mutations
         st.fixed_dictionaries({"op": st.just("add"), "var": _var()}),
         st.fixed_dictionaries({"op": st.just("add_dup"), "var": i}),
+        st.fixed_dictionaries({"op": st.just("add_bad_value"), "var": _var(), "how": st.sampled_from(["array", "extend", "add_variables_from"])}),
         st.fixed_dictionaries({"op": st.just("remove"), "var": i}),
         st.fixed_dictionaries({"op": st.just("rename"), "var": i, "new": i}),
         st.fixed_dictionaries({"op": st.just("rename"), "var": i, "new": i}),
@@ -579,6 +580,35 @@ def case_history(p, ctx):
                 pass
             else:
                 ctx.fail("invalid_edit", f"add_variable of existing name {name!r} did not raise", at=where)
+        elif kind == "add_bad_value":
+            # documented rejection: a current value outside the bounds raises ValueError and the variable is not added
+            rec = rec_from_spec(op["var"])
+            if rec.name in m.names():
+                continue
+            comp = next((k for k in range(rec.size) if math.isfinite(rec.ub[k])), None)
+            if comp is None:
+                continue
+            rec.value = [point_from(rec.lb[k], rec.ub[k], rec.type, 0.5) for k in range(rec.size)]
+            rec.value[comp] = rec.ub[comp] + 2.0
+            try:
+                if op["how"] == "array":
+                    build_variable(ds, rec)
+                else:
+                    from gemseo.algos.design_space import DesignSpace
+
+                    other = DesignSpace()
+                    good = rec.copy()
+                    good.value = None
+                    build_variable(other, good)
+                    other.set_current_variable(rec.name, np.array(rec.value, dtype=np.int64 if rec.type == "integer" else float))
+                    if op["how"] == "extend":
+                        ds.extend(other)
+                    else:
+                        ds.add_variables_from(other, rec.name)
+            except ValueError:
+                ctx.cls("rejected_add_variable_with_value_outside_bounds")
+            else:
+                ctx.fail("invalid_edit", f"add_variable of {rec.name!r} with a current value above its upper bound did not raise", at=where)
         elif kind == "remove":
             if not n:
                 continue
